@@ -112,11 +112,27 @@ RoundTrip666(in) == \A i \in 0 .. in[2] - 1 : LET c == Col666(in, i)  e == Enc66
                       Dec18x8(e[1], e[2], e[3]) = c /\ e[1] % 4 = 0 /\ e[2] % 4 = 0 /\ e[3] % 4 = 0
 
 ---------------------------------------------------------------------------
+\* very large targets are judged on the run-length encoded rows directly (no expansion): everything painted, the
+\* outermost rows entirely white, every other row white exactly in its first and last column, and somewhere a row with
+\* a red run left of a green run left of a blue run
+RowLen(row) == LET F[i \in 0 .. Len(row)] == IF i = 0 THEN 0 ELSE F[i - 1] + row[i][2] IN F[Len(row)]
+BigPictureBad(rows, w, h) ==
+  IF Len(rows) # h \/ \E y \in 1 .. h : RowLen(rows[y]) # w THEN "picture has the wrong size"
+  ELSE IF \E y \in 1 .. h : \E i \in 1 .. Len(rows[y]) : rows[y][i][1] = 9 THEN "a pixel was left unpainted"
+  ELSE IF rows[1] # <<<<1, w>>>> \/ rows[h] # <<<<1, w>>>> THEN "top / bottom row not entirely white"
+  ELSE IF \E y \in 2 .. h - 1 : LET r == rows[y] IN
+            Len(r) < 3 \/ r[1] # <<1, 1>> \/ r[Len(r)] # <<1, 1>> \/ r[2][1] = 1 \/ r[Len(r) - 1][1] = 1
+       THEN "no exact one-pixel white frame on the outermost columns"
+  ELSE IF \E y \in {2, h - 1} : \E i \in 2 .. Len(rows[y]) - 1 : rows[y][i][1] = 1 THEN "white next to the frame"
+  ELSE IF ~\E y \in 1 .. h : \E i, j, k \in 1 .. Len(rows[y]) : i < j /\ j < k /\ rows[y][i][1] = 2 /\ rows[y][j][1] = 3 /\ rows[y][k][1] = 4
+       THEN "no row with red left of green left of blue" ELSE ""
+
 TestImageBad(in, out) ==
   LET w == in[2]  h == in[3] IN
   IF out[1] # "ok" THEN "drawing the test image panicked"
   ELSE IF w < 32 \/ h < 32 THEN ""
-  ELSE GoodPicture(Expand(out[2], w, h), w, h)
+  ELSE IF w * h <= 12000 THEN GoodPicture(Expand(out[2], w, h), w, h)
+  ELSE BigPictureBad(out[2], w, h)
 \* DRIFT: the real picture differs from the model of the drawing program (not an alarm)
 TestImageDrift(r) == r.f = "testimage" /\ r.res = "ok" /\ r.out[1] = "ok" /\ r.in[2] > 0 /\ r.in[3] > 0 /\ r.in[2] <= 64 /\ r.in[3] <= 64
                      /\ Expand(r.out[2], r.in[2], r.in[3]) # TestImagePic(r.in[2], r.in[3])
